@@ -52,7 +52,8 @@ func (g *Resource[T]) Remove() {
 //
 // See also [ecs.Resources.Get].
 func (g *Resource[T]) Get() *T {
-	return g.world.Resources().Get(g.id).(*T)
+	res, _ := g.world.Resources().Get(g.id).(*T)
+	return res
 }
 
 // Has returns whether the world has the resource type.
